@@ -2,12 +2,12 @@ SPECIFICATION MCSpec
 CONSTANTS WakeAll = TRUE
  NotifyOnFail = TRUE
  NarrowLock = FALSE
- MaxWriters = 1
- MaxReaders = 2
- MaxStores = 2
- MaxCancel = 1
+ MaxWriters = 3
+ MaxReaders = 1
+ MaxStores = 3
+ MaxCancel = 0
  MaxExpire = 1
- Duties = {d1, d2}
+ Duties = {d1}
  Pks = {p1, p2}
  Vals = {a, b}
 SYMMETRY Sym
